@@ -214,8 +214,9 @@ func runHistory(r *rand.Rand, nProd int, pool bool, undisciplined bool) (op, int
 		for i := 0; i < 2+rr.Intn(3); i++ {
 			perturb(rr)
 			time.Sleep(time.Duration(rr.Intn(300)) * time.Microsecond)
+			slow := rr.Intn(2) == 0
 			if rr.Intn(2) == 0 {
-				d := 1 + rr.Intn(2)
+				d := 1 + rr.Intn(4) // 3 or more: every flow's inactive deadline passes, the scan removes them all
 				inv := h.begin()
 				p.A.VerifShiftDeadlines(time.Duration(d) * agg.Unit)
 				h.end(op{"kind": "Advance", "d": d}, inv)
@@ -227,6 +228,9 @@ func runHistory(r *rand.Rand, nProd int, pool bool, undisciplined bool) (op, int
 				n := agg.KeyName(k)
 				calls = append(calls, n)
 				exports = append(exports, exportProj(n, rec, p))
+				if slow { // a slow export: other callers queue up on the mutex meanwhile
+					time.Sleep(time.Duration(1+rr.Intn(3)) * time.Millisecond)
+				}
 				return p.A.ResetStatAndThroughputElementsInRecord(rec.Record)
 			})
 			h.end(op{"kind": "Scan", "fail": []string{}, "calls": calls, "exports": exports, "err": err != nil}, inv)
@@ -239,14 +243,22 @@ func runHistory(r *rand.Rand, nProd int, pool bool, undisciplined bool) (op, int
 		go func() {
 			defer wg.Done()
 			rr := rand.New(rand.NewSource(qSeed))
-			for i := 0; i < 2+rr.Intn(3); i++ {
+			for i := 0; i < 3+rr.Intn(4); i++ {
 				perturb(rr)
-				time.Sleep(time.Duration(rr.Intn(200)) * time.Microsecond)
-				switch rr.Intn(3) {
-				case 0:
+				time.Sleep(time.Duration(rr.Intn(400)) * time.Microsecond)
+				switch rr.Intn(5) {
+				case 0, 3:
 					inv := h.begin()
 					n := p.A.GetNumFlows()
 					h.end(op{"kind": "NumFlows", "n": int(n)}, inv)
+				case 4: // all records (no filter)
+					inv := h.begin()
+					recs := p.A.GetRecords(nil)
+					fl := make([]any, 0, len(recs))
+					for _, m := range recs {
+						fl = append(fl, p.FlowProjOf(agg.KeyOfMap(m), m, false, false))
+					}
+					h.end(op{"kind": "GetAllQ", "flows": fl}, inv)
 				case 1:
 					inv := h.begin()
 					d := p.A.GetExpiryFromExpirePriorityQueue()
@@ -266,7 +278,20 @@ func runHistory(r *rand.Rand, nProd int, pool bool, undisciplined bool) (op, int
 			}
 		}()
 	}
-	wg.Wait()
+	joined := make(chan struct{})
+	go func() { wg.Wait(); close(joined) }()
+	select {
+	case <-joined:
+	case <-time.After(20 * time.Second):
+		// callers blocked for good: no sequential execution explains an operation that never returns
+		ret := h.clock.Add(1)
+		h.mu.Lock()
+		h.ops = append(h.ops, op{"kind": "Hang", "inv": ret, "ret": ret + 1, "detail": "operations did not return within 20 s (deadlock)"})
+		hung := op{"ops": h.ops, "producers": nProd, "pool": pool, "undisciplined": undisciplined, "hung": true}
+		n := len(h.ops)
+		h.mu.Unlock()
+		return hung, n
+	}
 	if pool {
 		// every message was taken by a worker; wait until the workers have finished their last job:
 		// the aggregate state must be stable over 6 consecutive polls 10 ms apart (at most 3 s)
